@@ -140,7 +140,8 @@ def run_memcheck(case, ctx):
         return
     err = r.err.decode('latin-1')
     out.obs['memcheck_runs'] += 1
-    if r.rc in (2, 3) and not os.path.exists(ctx.path('x.p')):
+    if (r.rc in (2, 3) or (r.rc == 77 and re.search(r'^> > > .*: (error|fatal)', err, re.M))) and not os.path.exists(ctx.path('x.p')):
+        # (valgrind replaces asl's exit status by 77 as soon as it has something to report: the messages tell that asl rejected the program)
         # the program was rejected: no code file; what the listing shows for a rejected statement is not part of this property
         out.obs['memcheck_runs_of_rejected_programs_not_judged'] += 1
         return
